@@ -352,7 +352,10 @@ Definition stb_body (k : sst -> ms -> stb_result) (start : range) (s : sst) (m :
         match best_match s2 m2 with
         | Some best =>
             let '(ret, m3) := tighten m2 best in
-            Done (ret, push_item (mkS (unp s2) [] [] (hints s2)) m3 best, m3)
+            let s3 := push_item (mkS (unp s2) [] [] (hints s2)) m3 best in
+            let nb := sbounds s3 m3 in
+            (* `return ret or starting_bounds.lower_bound < self.bounds().lower_bound or ... > ...upper_bound` *)
+            Done (ret || rv_ltb (lo start) (lo nb) || rv_ltb (hi nb) (hi start), s3, m3)
         | None => Crash
         end
       else
@@ -373,18 +376,18 @@ Fixpoint stb_loop (fuel : nat) (start : range) (s : sst) (m : ms) : stb_result :
 Definition search_tighten (fuel : nat) (s : sst) (m : ms) : outcome (bool * sst * ms) :=
   stb_loop fuel (sbounds s m) s m.
 
-Fixpoint search_loop (fuel inner : nat) (s : sst) (m : ms) : outcome (sst * ms) :=
+Fixpoint search_loop (fuel inner : nat) (s : sst) (m : ms) (rets : list bool) : outcome (sst * ms * list bool) :=
   match fuel with
   | O => OutOfFuel
   | S f => obind (search_tighten inner s m) (fun '(r, s', m') =>
-             if r then search_loop f inner s' m' else Done (s', m'))
+             if r then search_loop f inner s' m' (rets ++ [true]) else Done (s', m', rets ++ [false]))
   end.
 
-(* search() followed by bounds() *)
+(* search() followed by bounds(); rets = the values returned by the calls of tighten_bounds() inside search() *)
 Definition search (fuel : nat) (m : ms) (ids : list nat) (hints : list nat)
-  : outcome (option nat * range * ms) :=
-  obind (search_loop fuel fuel (mkS (Some ids) [] [] hints) m) (fun '(s, m') =>
-    Done (best_match s m', sbounds s m', m')).
+  : outcome (option nat * range * list bool * ms) :=
+  obind (search_loop fuel fuel (mkS (Some ids) [] [] hints) m []) (fun '(s, m', rets) =>
+    Done (best_match s m', sbounds s m', rets, m')).
 
 (* ------------------------------------------------------------------ correspondence *)
 
@@ -419,7 +422,7 @@ Definition model_run (c : case) : outcome (obs * ms) :=
                   | ValueErr => Done (OValueError, m)
                   | OutOfFuel => OutOfFuel | Crash => Crash | Unmodelled => Unmodelled | BadTrace => BadTrace
                   end
-  | OpSearch => obind (search fuel m ids (o_hints o)) (fun '(b, r, m') => Done (OSearch b r, m'))
+  | OpSearch => obind (search fuel m ids (o_hints o)) (fun '(b, r, rets, m') => Done (OSearch b r rets, m'))
   end.
 
 Definition obs_eqb (a b : obs) : bool :=
@@ -428,7 +431,7 @@ Definition obs_eqb (a b : obs) : bool :=
   | OItem x, OItem y => onat_eqb x y
   | OList x, OList y => list_eqb Nat.eqb x y
   | ORanges x, ORanges y => list_eqb range_eqb x y
-  | OSearch x r, OSearch y q => onat_eqb x y && range_eqb r q
+  | OSearch x r a, OSearch y q b => onat_eqb x y && range_eqb r q && list_eqb Bool.eqb a b
   | OValueError, OValueError => true
   | _, _ => false
   end.
